@@ -63,7 +63,7 @@ type c12Plan struct {
 	// ids run out at 65535 - the tasks beyond that must be refused, not given an id that wraps around.
 	IdBase int `json:"id_base,omitempty"`
 	// BadAck: the k-th SETUP the peer sees (0-based) is not acknowledged but answered with something else - 1: a
-	// header-only packet of another type, 2: a DONE package. That NewChannel must fail and leave no channel behind:
+	// header-only packet of another type, 2: a DONE package, 3: a header-only packet of type 15 (the bits of 11 and one more). That NewChannel must fail and leave no channel behind:
 	// a packet the server sends for the id afterwards is a packet for a channel that does not exist.
 	BadAck map[int]int `json:"bad_ack,omitempty"`
 	// Chaos: instead of the scripted clients, a few tasks call the whole public surface of two shared channels
@@ -179,7 +179,7 @@ func (c12) Gen(r *Rand, idx int, tier string) interface{} {
 		p.CloseEarly = 1 + r.Intn(60)
 	}
 	if r.Pct(8) {
-		p.BadAck = map[int]int{r.Intn(len(p.Tasks)): 1 + r.Intn(2)}
+		p.BadAck = map[int]int{r.Intn(len(p.Tasks)): 1 + r.Intn(3)}
 	}
 	if r.Pct(6) && len(p.Tasks) > 1 {
 		p.IdBase = 65536 - r.Intn(len(p.Tasks)+1)
@@ -464,6 +464,12 @@ func (c12) Run(plan interface{}, schedSeed uint64, replay []simrt.Choice, lenien
 				badAcks++
 				s.Fault("setup-not-acknowledged")
 				enqueue(c, peer.Packetise(peer.Done(0, 0, 0), nil, peer.BufResponse, c, true))
+			case 3:
+				// a header-only packet whose type (15, normal) has all the bits of the acknowledgement's type (11) set
+				// and one more: it is not an acknowledgement
+				badAcks++
+				s.Fault("setup-not-acknowledged")
+				enqueue(c, [][]byte{peer.MakePacket(15, peer.BufstatEOM, c, 0, nil)})
 			default:
 				enqueue(c, [][]byte{peer.MakePacket(peer.BufProtack, peer.BufstatEOM, c, 0, nil)})
 				return
